@@ -13,6 +13,8 @@ sed -i "s#/repo/rust/#$root/repo/rust/#g" $root/harness/Cargo.toml
 sed -i "s#^target-dir.*#target-dir = \"$root/target\"#" $root/harness/.cargo/config.toml
 if ! patch -s -p1 -d $root/repo < "$patch"; then echo "PATCH-FAILED"; rm -rf $root; exit 2; fi
 cp -al /verif/target $root/target 2>/dev/null
+# hard links share the inode of cargo's lock file: without this every scratch build serialises on /verif/target's lock
+find $root/target -name ".cargo-lock" -delete 2>/dev/null
 ( cd $root/harness && cargo build --offline --profile verif --bin amverif 2>&1 | grep -E "^error" -A 8 | head -40 )
 if [ ! -x $root/target/verif/amverif ]; then echo "BUILD-FAILED"; rm -rf $root; exit 2; fi
 rc=0
